@@ -337,3 +337,37 @@ func RunModelProto(mp *onnx.ModelProto, feed map[string]*ref.T, outputs []string
 	}
 	return o
 }
+
+// RunBytes loads model bytes and runs them once; outputs in the given order.
+func RunBytes(b []byte, feed map[string]*ref.T, outputs []string) Outcome {
+	phase := "load"
+	malformed := ""
+	o := Capture(&phase, func() ([]tensor.Tensor, error) {
+		m, err := gonnx.NewModelFromBytes(b)
+		if err != nil {
+			return nil, err
+		}
+		phase = "run"
+		in := gonnx.Tensors{}
+		for k, v := range feed {
+			in[k] = ToTensor(v)
+		}
+		res, err := m.Run(in)
+		if err != nil {
+			return nil, err
+		}
+		out := make([]tensor.Tensor, len(outputs))
+		for i, name := range outputs {
+			t, ok := res[name]
+			if !ok {
+				malformed = fmt.Sprintf("declared output %q missing from the result map", name)
+			}
+			out[i] = t
+		}
+		return out, nil
+	})
+	if malformed != "" && o.Kind == Value {
+		o.ReadErr = malformed
+	}
+	return o
+}
